@@ -2593,8 +2593,13 @@ class CIMInstance(_CIMComparisonMixin, SlottedPickleMixin):
             self._path = None
         else:
             # The provided path is deep copied because its keybindings may be
-            # updated when setting properties (in __setitem__()).
+            # updated when setting properties (in __setitem__()). The copy()
+            # method of the path shares the values of its keybindings, so
+            # reference typed keybinding values are copied in addition.
             self._path = path.copy()
+            for key, value in self._path.keybindings.items():
+                if isinstance(value, CIMInstanceName):
+                    self._path.keybindings[key] = copy_.deepcopy(value)
 
             # We perform this check after the initialization to avoid errors
             # in test tools that show the object with repr().
